@@ -11,7 +11,7 @@ RULE = ('Exhaustive grid: operator in {+ - * / % == != < <= > >= and or, unary +
         'including positive literals beyond the signed range} x operand type combination {int*int, byte*byte, byte*int, int*byte, bool*bool} x all '
         'ordered pairs from a per-word-size boundary grid (0, +-1, 2, 127/128, 255/256/257, -128/-129, -255/-256, MIN, '
         'MIN+1, MAX, MAX-1 + seeded random values; bytes 0,1,2,127,128,254,255 + random) x usage position {value, recast '
-        'to int, if-branch, while-condition, !truth_is_defeat under try/stop} x word size {2,3,4}. Operands are run-time '
+        'to int, if-branch, while-condition, !truth_is_defeat under try/stop, narrowed to byte and consumed as the index of a byte-array store, narrowed and consumed as a dynamic array length} x word size {2,3,4}. Operands are run-time '
         'values (elements of mutable global arrays, never folded). Oracle: harness arithmetic (two\'s complement wrap, '
         'signed compare, zero extension, low-byte truncation, truthiness, strict 0/1 booleans, floored / and %); the '
         'positions must also agree with one another. Division by zero pairs are excluded (C05). Non-trivial: pairs with '
@@ -24,7 +24,8 @@ EXTRA = [6]
 BIN_ARITH = ['+', '-', '*', '/', '%']
 BIN_CMP = ['==', '!=', '<', '<=', '>', '>=']
 BIN_LOGIC = ['and', 'or']
-POSITIONS = ['value', 'recast', 'if', 'while', 'defeat']
+POSITIONS = ['value', 'recast', 'if', 'while', 'defeat', 'index', 'length']
+SCRATCH = 'byte[] T = [%s];\n' % ', '.join(['0'] * 256)
 
 
 def sgn(v, ws):
@@ -125,6 +126,12 @@ def body_for(position, expr, rty):
         return 'int n = 0; while (%s) { n += 1; if (n >= 1) { break; } } write(n); write(\';\');' % expr
     if position == 'defeat':
         return 'try { !truth_is_defeat(%s); write(\'N\'); } stop { write(\'D\'); } write(\';\');' % as_bool
+    as_byte = expr if rty == 'byte' else '(%s) is byte' % expr
+    if position == 'index':
+        # the narrowed result consumed as the index of a byte-array store (checked against the length, then used as offset)
+        return 'T[%s] = 7; int kq = 0; while (T[kq] != 7) { kq += 1; } write(kq); T[kq] = 0; write(\';\');' % as_byte
+    if position == 'length':
+        return 'byte q[%s]; write(q.length); write(\';\');' % as_byte
     raise ValueError(position)
 
 
@@ -147,11 +154,13 @@ def expect_for(position, res):
         return '1' if truth else '0'
     if position == 'defeat':
         return 'D' if truth else 'N'
+    if position in ('index', 'length'):
+        return str(int(v) & 0xFF)
 
 
 def program(ta, tb, xs, ys, stmts, unary=False):
     decl_a = '%s[] A = [%s];' % (ta, ', '.join(lit(ta, v) for v in xs))
-    src = decl_a + '\n'
+    src = decl_a + '\n' + (SCRATCH if 'T[' in stmts else '')
     if not unary:
         src += '%s[] B = [%s];\n' % (tb, ', '.join(lit(tb, v) for v in ys))
     src += 'empty @is_you() {\n  for (int i = 0; i < A.length; i += 1) {\n    %s x = A[i];\n' % ta
@@ -196,8 +205,8 @@ def check_lit_group(stats, ws, kind, op, ta, tb, position, seed):
         body = body_for(position, expr, rty)
         body = body.replace('int n = 0;', 'int n%d = 0;' % li).replace('n += 1', 'n%d += 1' % li).replace('(n >= 1)', '(n%d >= 1)' % li).replace('write(n);', 'write(n%d);' % li)
         stmts.append((L, Lw, '{ ' + body + ' }'))
-    src = '%s[] A = [%s];\nempty @is_you() {\n  for (int i = 0; i < A.length; i += 1) {\n    %s x = A[i];\n' % (
-        var_ty, ', '.join(lit(var_ty, v) for v in xs), var_ty)
+    src = '%s[] A = [%s];\n%sempty @is_you() {\n  for (int i = 0; i < A.length; i += 1) {\n    %s x = A[i];\n' % (
+        var_ty, ', '.join(lit(var_ty, v) for v in xs), SCRATCH if position == 'index' else '', var_ty)
     src += ''.join('    ' + b + '\n' for _, _, b in stmts) + '  }\n}\n'
     exp = []
     cases = []
@@ -331,6 +340,8 @@ def run_shard(desc, seed, tier):
         if gi % n != k:
             continue
         for position in POSITIONS:
+            if position in ('index', 'length') and (kind == 'notbin' or op in BIN_CMP or op in BIN_LOGIC or op in ('not', 'is bool')):
+                continue        # bool results narrow to 0/1 only: the index/length positions are about int and byte results
             v = check_group(stats, ws, kind, op, ta, tb, position, seed)
             if v:
                 stats.violation(v)
